@@ -12,6 +12,7 @@ using M = hfsm2::MachineT<Cfg>;
 using FSM = M::Root< S(R), M::Orthogonal<S(O), M::Composite<S(P), S(P1), S(P2)>, M::Composite<S(Q), S(Q1), S(Q2)>>, S(X) >;
 #define VM_NS 9
 #define VM_NC 3
+#define VM_ROOT_HAS_STUB 1
 #include "tier_c/spec_types.hpp"
 static const VSpec VM_SPEC[VM_NS] = {
   /*0 R */ { -1, 0, K_COMPO, 2, ST_COMPOSITE, 0 },
